@@ -1,0 +1,15 @@
+//go:build verif
+// +build verif
+
+package disk
+
+// VerifGate is set by the verification harness (build tag "verif"). It is
+// called at named points of concurrent code paths and may block there to
+// force a particular interleaving. It is nil, and never called, otherwise.
+var VerifGate func(point string)
+
+func verifGate(point string) {
+	if f := VerifGate; f != nil {
+		f(point)
+	}
+}
